@@ -114,7 +114,11 @@ def recDirProg (dirTy recTy : Nat) (id : String) : Prog :=
         | .ok ents => loadChildren recTy (subDirs ents) own
     | .ok _ => .panic
 
-/-! ## Script compounds -/
+/-! ## Script compounds
+
+A script is a list of tokens; `@T:id:n` is `get_or_insert::<T>(id, T::from_int(n))` from inside the
+loader (possibly into the very slot that is being loaded). Same accepted and rejected forms as
+`parse_script` in `harness/src/types.rs`. -/
 
 inductive Tok
   | lit (n : Int)
@@ -126,6 +130,7 @@ inductive Tok
   | thread (ty : Nat) (id : String)     -- `&T:id`  load on a helper thread
   | catch (ty : Nat) (id : String)      -- `^T:id`  catch_unwind(no_record(load)); a panic adds 7777
   | raw (id ext : String)               -- `r:id:ext` raw read, adds the length
+  | goi (ty : Nat) (id : String) (n : Int)  -- `@T:id:n` get_or_insert(id, T::from_int(n)), adds the value found / stored
   | panic                               -- `#`
   | error                               -- `%`
   deriving Repr
@@ -134,6 +139,13 @@ def valInt : Val → Int
   | .int i => i
   | .asset v _ _ => v
   | .ids l => l.length
+
+/-- `T::from_int(n)` of the harness (`Canon::from_int`): the value `get_or_insert` is handed, for the types
+that can be built from an integer (script compounds, `Arc`s of them, assets `M<e,d>`, `i64`). -/
+def insertableVal (ty : Nat) (n : Int) : Option Val :=
+  if ty ≤ 5 ∨ ty = 50 then some (.int n)
+  else if 10 ≤ ty ∧ ty < 22 then some (.asset n "" [])
+  else none
 
 def scriptProg : List Tok → Int → Prog
   | [], acc => .ret (.int acc)
@@ -171,6 +183,11 @@ def scriptProg : List Tok → Int → Prog
       match r with
       | .ok bs => scriptProg rest (acc + bs.length)
       | .error e => .fail (.io e)
+  | .goi ty id n :: rest, acc =>
+      -- the parser only produces insertable types; anything else is what the code would refuse to compile
+      match insertableVal ty n with
+      | some v => .getOrInsert ⟨ty, id⟩ v fun r => scriptProg rest (acc + valInt r)
+      | none => .panic
   | .panic :: _, _ => .panic
   | .error :: _, _ => .fail (.custom "user")
 
@@ -215,6 +232,13 @@ def parseTok (w : List Char) : Option Tok :=
   | 'r' :: ':' :: r =>
     match splitOnChar ':' r with
     | [id, ext] => some (.raw (String.ofList id) (String.ofList ext))
+    | _ => none
+  | '@' :: r =>
+    -- exactly `T:id:n`, `T` a type that can be built from an integer, `n` = `-?[0-9]{1,15}`
+    match splitOnChar ':' r with
+    | [t, id, n] =>
+      (tyOfName (String.ofList t)).bind fun ty => (parseInt? n).bind fun n =>
+        (insertableVal ty n).map fun _ => .goi ty (String.ofList id) n
     | _ => none
   | _ => (parseInt? w).map .lit
 
